@@ -1,6 +1,6 @@
 from ..scanner import Scanner
 from ..scanner_utils import is_space
-from .scan import literal, Chars
+from .scan import literal, comment, Chars
 
 # NB: no `Minus` operator, it must be handled differently
 operators = '+/*,'
@@ -15,8 +15,8 @@ def split_value(value: str, offset=0):
 
     while not scanner.eof():
         pos = scanner.pos
-        if scanner.eat(is_space) or scanner.eat(is_operator) or is_minus_operator(scanner):
-            # Use space as value delimiter but only if not in expression context,
+        if scanner.eat(is_space) or comment(scanner) or scanner.eat(is_operator) or is_minus_operator(scanner):
+            # Use space (or comment) as value delimiter but only if not in expression context,
             # e.g. `1 2` are distinct values but `(1 2)` not
             if not expression and start != -1:
                 result.append((offset + start, offset + pos))
